@@ -7,6 +7,7 @@ concrete / symbolic values.  The program text it executes is the `ast` of the re
 from __future__ import annotations
 
 import ast
+import os
 import builtins
 import operator
 import types
@@ -134,7 +135,7 @@ class Interp:
         self.loop_counter = []
         self.interpret_all = interpret_all
         self.noop_attr_calls = {"logger", "logging", "warnings"}
-        self.set_order_nondet = False  # True: iterating a native set forks over every order (C14 hash-seed independence)
+        self.set_order_nondet = bool(os.environ.get("PYVC_SET_ORDER"))   # True: iterating a native set forks over every order (C14 hash-seed independence)
         self.heap_writes = []  # (SObj, field) of every attribute store on a symbolic heap object
         self.called = set()  # (rel, qualname) of every repo function interpreted on this path
         self.native_called = set()
